@@ -201,7 +201,7 @@ Qed.
 Example fault_outcomes_ex : fst (fault_outcomes [3; 0]) = 11.
 Proof. vm_compute. reflexivity. Qed.
 
-(** ** result sets that break off: what the contract needs and what inspect.go does
+(** ** result sets that break off (row-level faults)
     A statement's answer arrives row by row; the engine may report an error after [j] rows
     ([break = Some j]; SQLite reports "database is locked" from the first step, j = 0, not from the
     query call).  database/sql ends the [for rows.Next()] loop in both cases and keeps the error in
@@ -211,20 +211,39 @@ Definition next_loop {T : Type} (rows : list T) (break : option nat) : list T * 
   | None => (rows, false)
   | Some j => (firstn j rows, true)
   end.
-(** the loop followed by [if err := rows.Err(); err != nil { return err }]: a [Read] of [prog] *)
+(** sql/sqlite/inspect.go since fix C03-rows-err: every loop is followed by
+    [if err := rows.Err(); err != nil { return err }] *)
 Definition read_rows_checked {T : Type} (rows : list T) (break : option nat) : option (list T) :=
   let (l, e) := next_loop rows break in if e then None else Some l.
-(** the loops of sql/sqlite/inspect.go: no look at [rows.Err()] *)
-Definition read_rows_unchecked {T : Type} (rows : list T) (break : option nat) : option (list T) :=
+(** the loops before the fix: no look at [rows.Err()] *)
+Definition read_rows_unchecked_old {T : Type} (rows : list T) (break : option nat) : option (list T) :=
   Some (fst (next_loop rows break)).
+
+(** the checked loop is a read that either fails or delivers everything: exactly [Read] of [prog] *)
+Lemma read_rows_checked_spec {T : Type} (rows : list T) break :
+  read_rows_checked rows break = match break with Some _ => None | None => Some rows end.
+Proof. destruct break; reflexivity. Qed.
 
 Lemma read_rows_checked_fails_or_same {T : Type} (rows : list T) break :
   read_rows_checked rows break = None \/ read_rows_checked rows break = Some rows.
 Proof. destruct break; cbn; auto. Qed.
 
-(** unchecked: a locked table-list statement reads as "no tables" *)
-Lemma read_rows_unchecked_refuted {T : Type} (x : T) (rows : list T) :
-  read_rows_unchecked (x :: rows) (Some 0) = Some [] /\
-  read_rows_unchecked (x :: rows) (Some 0) <> None /\
-  read_rows_unchecked (x :: rows) (Some 0) <> Some (x :: rows).
-Proof. cbn. repeat split; discriminate. Qed.
+(** the old loop: a locked table-list statement read as "no tables" (finding C03-rows-err-unchecked, fixed) *)
+Lemma read_rows_unchecked_old_refuted {T : Type} (x : T) (rows : list T) :
+  read_rows_unchecked_old (x :: rows) (Some 0) = Some [] /\
+  read_rows_unchecked_old (x :: rows) (Some 0) <> None /\
+  read_rows_unchecked_old (x :: rows) (Some 0) <> Some (x :: rows).
+Proof. cbn. split; [reflexivity|]. split; discriminate. Qed.
+
+(** a plan of row-level faults: [rf n = Some j] = the n-th statement of the process breaks off after j
+    rows (j = 0: at its first step; a failure of the query call itself is the case "before any row").
+    With checked loops a statement that breaks off is a failed read, whatever [j]. *)
+Definition run_rows {Q A R : Type} (cat : Q -> A) (rf : nat -> option nat) (n : nat) (p : prog Q A R) : option R :=
+  run Q A cat (fun m => match rf m with Some _ => true | None => false end) n p.
+
+Theorem inspect_disturbed_rows d rf :
+  run_rows (cat_of d) rf 0 inspect_prog =
+  if existsb (fun m => match rf m with Some _ => true | None => false end)
+             (seq 0 (reads _ _ (cat_of d) inspect_prog))
+  then None else Some (inspect d).
+Proof. unfold run_rows. apply inspect_disturbed. Qed.
